@@ -1379,9 +1379,10 @@ def read_parse_file(fn, interp):
     if not (is_call(seq, "split") and isinstance(seq.func.value, ast.Name) and seq.func.value.id == textparam
             and fenv.single(textparam) is None and textparam not in fenv.assigns):
         raise TranslateError("parse_file: lines are not `%s.split(<sep>)` (found `%s`)" % (textparam, _src(seq)))
-    if len(seq.args) != 1 or seq.keywords:
+    sep_nodes = list(seq.args) + [k.value for k in seq.keywords if k.arg == "sep"]
+    if len(sep_nodes) != 1 or len(seq.args) + len(seq.keywords) != 1:
         raise TranslateError("parse_file: split(<sep>) with one argument expected")
-    sep = fenv.const(seq.args[0])
+    sep = fenv.const(sep_nodes[0])
     if not isinstance(sep, str):
         raise TranslateError("parse_file: split separator is not a string")
 
